@@ -39,6 +39,10 @@ def _interp(fi, tree, node, fnarg, kw):
         try:
             if kind == "call":
                 acc.append(_fn(step[1])(tree, step[2]))
+            elif kind == "igncall":  # the result of the sub-call is of no interest to the body
+                acc.append(_fn(step[1]).ignore_result()(tree, step[2]))
+            elif kind == "ignbatch":
+                acc.append(_fn(step[1]).ignore_result().call_batch([{"tree": tree, "node": c} for c in step[2]], raise_first_exception=False))
             elif kind == "mutcall":  # hands the child a list and changes that list in place afterwards
                 tag = [node]
                 acc.append(_fn(step[1])(tree, step[2], tag=tag))
